@@ -76,17 +76,17 @@ Fixpoint earlier (t : table) (pins : list bool) : list table :=
 
 (* hc: the cancel flag (0 false, 1 true, 2 unknown).  he: lastError - 0 = as the model has it (set together with the first
    failed node), 2 = unknown (a stop request or a timeout may have set it; or it is being written this instant) *)
-Definition ov_allowed (fx started : bool) (s : snapc) : bool :=
+Definition ov_allowed (started : bool) (s : snapc) : bool :=
   let '(ov, (hc, he), t, pins) := s in
   existsb (fun t1 =>
     let errs := match he with 0 => [existsb (fun n => match nst n with NError => true | _ => false end) t1] | _ => [false; true] end in
     existsb (fun c => existsb (fun e =>
-      ost_eqb (ov_of fx (mkSched t1 c e (if started then SLoop else SInit) 0 0)) (ost_of ov)) errs) (hint hc))
+      ost_eqb (ov_of (mkSched t1 c e (if started then SLoop else SInit) 0 0)) (ost_of ov)) errs) (hint hc))
   (earlier (tbl_of t) pins).
 
 Definition tbl_of_snapc (s : snapc) : table := tbl_of (snd (fst s)).
 
-Definition case_errors (fx : bool) (c : ccase) : list nat :=
+Definition case_errors (c : ccase) : list nat :=
   let '(n, ws, lives) := c in
   let mains := filter (fun w => fst w =? 0) ws in
   let cons := filter (fun w => fst w =? 1) ws in
@@ -94,8 +94,8 @@ Definition case_errors (fx : bool) (c : ccase) : list nat :=
   let final := match mains with [_; f] => Some (tbl_of_snapc (snd f)) | _ => None end in
   let e1 := match ws with
             | [] => []
-            | w0 :: r => (if ov_allowed fx false (snd w0) then [] else [1]) ++
-                         (if forallb (fun w => ov_allowed fx true (snd w)) r then [] else [1])
+            | w0 :: r => (if ov_allowed false (snd w0) then [] else [1]) ++
+                         (if forallb (fun w => ov_allowed true (snd w)) r then [] else [1])
             end in
   let e2 := match ws with
             | (0, (0, _, t, _)) :: _ => if forallb (fun p => (fst p =? 0) && (snd p =? 0)) t && (length t =? n) then [] else [2]
@@ -115,34 +115,39 @@ Definition case_errors (fx : bool) (c : ccase) : list nat :=
             end in
   e1 ++ e2 ++ e3 ++ e4 ++ e5 ++ e6 ++ e7 ++ e8.
 
-Fixpoint mism_from (fx : bool) (k : nat) (cs : list ccase) : list (nat * nat) :=
+Fixpoint mism_from (k : nat) (cs : list ccase) : list (nat * nat) :=
   match cs with
   | [] => []
-  | c :: r => map (fun e => (k, e)) (case_errors fx c) ++ mism_from fx (S k) r
+  | c :: r => map (fun e => (k, e)) (case_errors c) ++ mism_from (S k) r
   end.
-Definition mismatches (cs : list ccase) : list (nat * nat) := mism_from false 0 cs.
+Definition mismatches (cs : list ccase) : list (nat * nat) := mism_from 0 cs.
 
 (* a run of the model, as a case: the lines its execution leaves in the file are accepted *)
 Example accept_model_run :
-  case_errors false (2, [(0, (0, (0, 0), [(0,0);(0,0)], [])); (1, (4, (0, 0), [(4,0);(0,0)], [])); (2, (1, (0, 0), [(4,0);(1,0)], []));
-                         (1, (4, (0, 0), [(4,0);(4,0)], [])); (0, (4, (0, 0), [(4,0);(4,0)], []))],
-                     [(1, [(0,0);(0,0)]); (1, [(1,0);(0,0)]); (1, [(4,0);(1,0)])]) = [].
+  case_errors (2, [(0, (0, (0, 0), [(0,0);(0,0)], [])); (1, (1, (0, 0), [(4,0);(0,0)], [])); (2, (1, (0, 0), [(4,0);(1,0)], []));
+                   (1, (4, (0, 0), [(4,0);(4,0)], [])); (0, (4, (0, 0), [(4,0);(4,0)], []))],
+               [(1, [(0,0);(0,0)]); (1, [(1,0);(0,0)]); (1, [(4,0);(1,0)])]) = [].
 Proof. vm_compute. reflexivity. Qed.
 
-(* a torn snapshot (overall read between two steps, table copied after the next launch) is a model behaviour *)
+(* a torn snapshot (overall read while the second step was running, table copied after it had finished) is a model behaviour *)
 Example accept_torn :
-  case_errors false (2, [(0, (0, (0, 0), [(0,0);(0,0)], [])); (1, (4, (0, 0), [(4,0);(1,0)], []))], []) = [].
+  case_errors (2, [(0, (0, (0, 0), [(0,0);(0,0)], [])); (1, (1, (0, 0), [(4,0);(4,0)], []))], []) = [].
 Proof. vm_compute. reflexivity. Qed.
 
-(* ... but not when the executor knows that the second step had been running for a while *)
+(* ... but not when the executor knows that the second step had ended long before *)
 Example reject_torn_when_pinned :
-  case_errors false (2, [(0, (0, (0, 0), [(0,0);(0,0)], [])); (1, (4, (0, 0), [(4,0);(1,0)], [true; true]))], []) = [1].
+  case_errors (2, [(0, (0, (0, 0), [(0,0);(0,0)], [])); (1, (1, (0, 0), [(4,0);(4,0)], [true; true]))], []) = [1].
 Proof. vm_compute. reflexivity. Qed.
 
-(* and deviations are not: an overall status that is not Scheduler.Status of the table; a snapshot going backwards *)
+(* since b9e9fa2 `finished` between two steps is not Scheduler.Status any more (before: accepted - finding F8a) *)
+Example reject_finished_between_steps :
+  case_errors (2, [(0, (0, (0, 0), [(0,0);(0,0)], [])); (1, (4, (0, 0), [(4,0);(0,0)], []))], []) = [1].
+Proof. vm_compute. reflexivity. Qed.
+
+(* other deviations: an overall status that is not Scheduler.Status of any earlier table; a snapshot going backwards *)
 Example reject_wrong_overall :
-  case_errors false (1, [(0, (0, (0, 0), [(0,0)], [])); (1, (2, (0, 0), [(4,0)], []))], []) = [1].
+  case_errors (1, [(0, (0, (0, 0), [(0,0)], [])); (1, (2, (0, 0), [(4,0)], []))], []) = [1].
 Proof. vm_compute. reflexivity. Qed.
 Example reject_backwards :
-  case_errors false (1, [(0, (0, (0, 0), [(0,0)], [])); (1, (4, (0, 0), [(4,0)], [])); (1, (1, (0, 0), [(1,0)], []))], []) = [4].
+  case_errors (1, [(0, (0, (0, 0), [(0,0)], [])); (1, (4, (0, 0), [(4,0)], [])); (1, (1, (0, 0), [(1,0)], []))], []) = [4].
 Proof. vm_compute. reflexivity. Qed.
